@@ -66,8 +66,8 @@ Proof. exact c_lax_max_digits_carry. Qed.
 (* ---------------- re-parsing a result (whole types) ----------------
    Spec/Stable.v: `stable t` — builtin classes, data classes, unions (| and ^) of builtin classes and data
    classes, negations, constrained scalars and Optional-style rules over a stable origin, homogeneous
-   sequences (list / set / frozenset / variable-length tuple) of stable element types, all with checking
-   (non-lax) constraints; `throwing o` — the default 'throw' policies; `ints_exact t w` — no bool stands
+   sequences (list / set / frozenset / variable-length tuple) of stable element types, mappings
+   Dict[K, V] of stable key and value types, all with checking (non-lax) constraints; `throwing o` — the default 'throw' policies; `ints_exact t w` — no bool stands
    where an int is declared (int([True]) returns True: the one result of a converter that is not of the
    exact declared class; it re-parses to the equal value 1, see C03_bool_for_int_reparses_equal).
    Everything else the proof needs about w (exact classes of elements, of union results, of rebuilt
@@ -115,4 +115,16 @@ Example C03_bool_for_int_reparses_equal :
   ints_exact t (PBool true) = false /\
   type_transform (fun _ _ => false) (fun _ => None) 5 default_options t (PBool true) = Ok (PInt 1) /\
   py_eq (PBool true) (PInt 1) = true.
+Proof. repeat split; vm_compute; reflexivity. Qed.
+
+(* a mapping whose keys collide after conversion ("1" and 1): the later value wins at the first position,
+   and the result is returned unchanged by a second parse *)
+Definition dict_int_str : ty := TRule (Some (TPrim TDict)) [TPrim TInt; TPrim TStr] false [] None None None.
+Example C03_reparse_mapping_nonvacuous :
+  let w := PDict [(PInt 1, PStr "b"); (PInt 2, PStr "3")] in
+  stable dict_int_str = true /\
+  type_transform (fun _ _ => false) (fun _ => None) 5 default_options dict_int_str
+     (PDict [(PStr "1", PStr "a"); (PInt 2, PInt 3); (PInt 1, PStr "b")]) = Ok w /\
+  ints_exact dict_int_str w = true /\
+  type_transform (fun _ _ => false) (fun _ => None) 5 default_options dict_int_str w = Ok w.
 Proof. repeat split; vm_compute; reflexivity. Qed.
